@@ -570,15 +570,26 @@ func (repo *Repository) CheckHeader(ctx context.Context,
 
 	branch, height := repo.branches.Find(hash)
 	if branch != nil {
-		return height, branch == repo.longest, nil
+		return height, repo.isInLongest(ctx, hash, height), nil
 	}
 
 	// Lookup in larger map
 	if height, exists := repo.heights[hash]; exists {
-		return height, true, nil
+		return height, repo.isInLongest(ctx, hash, height), nil
 	}
 
 	return -1, false, ErrUnknownHeader
+}
+
+// isInLongest returns true if the header at the specified height of the most proof of work chain
+// has the specified hash.
+func (repo *Repository) isInLongest(ctx context.Context, hash bitcoin.Hash32, height int) bool {
+	longestHash, err := repo.hash(ctx, height)
+	if err != nil {
+		return false
+	}
+
+	return longestHash.Equal(&hash)
 }
 
 // GetHeader returns the header with the specified hash with its block height and whether it is
@@ -595,11 +606,16 @@ func (repo *Repository) GetHeader(ctx context.Context,
 			return nil, -1, false, ErrHeaderNotAvailable
 		}
 
-		return data.Header, height, branch == repo.longest, nil
+		return data.Header, height, repo.isInLongest(ctx, hash, height), nil
 	}
 
 	// Lookup in larger map
 	if height, exists := repo.heights[hash]; exists {
+		// Only headers in the most proof of work chain are retained after they are pruned.
+		if !repo.isInLongest(ctx, hash, height) {
+			return nil, -1, false, ErrHeaderNotAvailable
+		}
+
 		header, err := repo.header(ctx, height)
 		if err != nil {
 			return nil, -1, false, err
@@ -647,6 +663,10 @@ func (repo *Repository) Hash(ctx context.Context, height int) (*bitcoin.Hash32, 
 	repo.Lock()
 	defer repo.Unlock()
 
+	return repo.hash(ctx, height)
+}
+
+func (repo *Repository) hash(ctx context.Context, height int) (*bitcoin.Hash32, error) {
 	if height > repo.longest.Height() {
 		return nil, ErrHeightBeyondTip
 	}
